@@ -302,3 +302,42 @@ def run (w : World) (pick : List Comp → List Comp) (storeSkips : Bool) (g : Gr
   (toposort pick g).map (fun o => runComponents w (fun c => g.keys.contains c) storeSkips o (Broker.seeded seed))
 
 end IV.Dr
+
+namespace IV.Dr
+
+/-! ### from decorator arguments to a declaration (`ComponentType.__init__`, dr.py:709-735) -/
+
+/-- the `optional=` keyword: absent, a single component (wrapped into a list), or a list -/
+inductive OptArg where
+  | absent
+  | single (c : Comp)
+  | many (cs : List Comp)
+deriving DecidableEq, Repr
+
+/-- what a decorator call supplies: class-level `requires` / `optional` of the component type,
+positional arguments, the deprecated `requires=` keyword and the `optional=` keyword -/
+structure RawDecl where
+  kind : Kind
+  clsRequires : List Item
+  clsOptional : List Comp
+  positional : List Item
+  kwRequires : List Item
+  kwOptional : OptArg
+deriving DecidableEq, Repr
+
+def OptArg.toList : OptArg → List Comp
+  | .absent => []
+  | .single c => [c]
+  | .many cs => cs
+
+/-- `deps = list(deps) or kwargs.get("requires", [])`; `requires = list(cls.requires) + deps`;
+`optional = list(cls.optional) + normalised optional=`.  `parser.__init__` forwards only `group`, so
+for a parser the two keywords are dropped. -/
+def derive (r : RawDecl) : Decl :=
+  match r.kind with
+  | .parser _ => ⟨r.kind, r.clsRequires ++ r.positional, r.clsOptional⟩
+  | _ =>
+    ⟨r.kind, r.clsRequires ++ (if r.positional.isEmpty then r.kwRequires else r.positional),
+     r.clsOptional ++ r.kwOptional.toList⟩
+
+end IV.Dr
